@@ -10,7 +10,7 @@ case "${1:-}" in quick|thorough) tier="$1"; shift;; esac
 out=/verif/seeded/$id
 [ -f "$out/patch.diff" ] || { echo "no $out/patch.diff"; exit 2; }
 [ -z "$(git -C /repo status --porcelain)" ] || { echo "/repo is not clean"; exit 2; }
-git -C /repo apply "$out/patch.diff" || { echo "PATCH DOES NOT APPLY TO /repo"; exit 2; }
+git -C /repo apply "$out/patch.diff" 2>/dev/null || git -C /repo apply -3 "$out/patch.diff" || { echo "PATCH DOES NOT APPLY TO /repo"; git -C /repo reset -q --hard HEAD; exit 2; }
 results=""
 for p in "$@"; do
   (cd /verif && VSIM_NO_EVIDENCE=1 ./check "$p" "$tier" > "$out/check-$p.log" 2>&1); st=$?
@@ -18,7 +18,7 @@ for p in "$@"; do
   echo "$id check $p ($tier): exit=$st $v"
   results="$results{\"check\":\"$p\",\"exit\":$st,\"tier\":\"$tier\"},"
 done
-git -C /repo checkout -q -- .
+git -C /repo checkout -q -- . ; git -C /repo reset -q --hard HEAD
 python3 - "$out" "[${results%,}]" <<'PY'
 import json,sys
 out,res=sys.argv[1:3]
